@@ -717,7 +717,7 @@ func (w *World) CheckC07(when string) *world.Problem {
 			return pr("setfinal-after-report", "%s: SetFinal(%d) was called when DA-included height %d was already reported", when, c.Height, c.DAIncludedSeen)
 		}
 	}
-	if inc > 0 && last < inc && w.CrashRestarts == 0 {
+	if inc >= w.P.N.Genesis.InitialHeight && last < inc && w.CrashRestarts == 0 {
 		return pr("setfinal-missing", "%s: DA-included height %d reported but the execution layer was only asked to finalize up to %d", when, inc, last)
 	}
 	return nil
